@@ -205,7 +205,7 @@ def c07_worker(res: Result, i: int, n: int) -> None:
     from kio.serial import entity_reader, entity_writer
 
     payloads = _payload_classes()
-    total = 1600 if res.tier == "quick" else 64000
+    total = 3200 if res.tier == "quick" else 256000
     mine = range(i, total, n)
     loop = asyncio.new_event_loop()
     pairs_seen: set[tuple[str, str]] = set()
